@@ -61,6 +61,20 @@ int c01_new_from_num(int i, long num, int reinit)
     return slot[i] != NULL;
 }
 
+/* ---- harness-owned read(): the descriptor constructors must cope with short reads and EINTR (the kernel
+ * may split a transfer any way it likes).  Linked with -Wl,--wrap=read; only the descriptor under test is affected. */
+extern ssize_t __real_read(int, void *, size_t);
+static int rd_fd = -1, rd_cap, rd_eintr;
+ssize_t __wrap_read(int fd, void *buf, size_t n)
+{
+    if (fd == rd_fd) {
+        if (rd_eintr > 0) { rd_eintr--; errno = EINTR; return -1; }
+        if (rd_cap > 0 && n > (size_t) rd_cap) n = (size_t) rd_cap;
+    }
+    return __real_read(fd, buf, n);
+}
+void c01_read_schedule(int cap, int eintr) { rd_cap = cap; rd_eintr = eintr; }
+
 /* make a readable descriptor holding exactly data[0..n): kind 0 = pipe (fed by a forked writer so
  * that any size works), kind 1 = unlinked regular file */
 static int make_fd(const char *data, long n, int kind, const char *dir)
@@ -118,9 +132,11 @@ int c01_new_from_fd(int i, const char *data, long n, int kind, int reinit, const
 {
     int fd = make_fd(data, n, kind, dir), r;
     if (fd < 0) return -1;
+    rd_fd = fd;
     errno = 0;
     if (reinit) r = g_cls ? spif_ustr_init_from_fd(slot[i], fd) : spif_str_init_from_fd(slot[i], fd);
     else { slot[i] = g_cls ? (void *) spif_ustr_new_from_fd(fd) : (void *) spif_str_new_from_fd(fd); r = slot[i] != NULL; }
+    rd_fd = -1;
     close(fd);
     while (waitpid(-1, NULL, WNOHANG) > 0) {}
     return r;
